@@ -133,6 +133,14 @@ func optsFor(prop, tier string) (core.GenOpts, int) {
 		o.Handlers = 1.0
 		o.Detach = 0.25
 		o.Motifs = []string{"after", "after", "random", "sparse", "multi", "autos"}
+	case "C06":
+		o.Subs, o.Handlers, o.Nested = 1.0, 0.6, 0.2
+		o.Motifs = []string{"sparse", "multi", "random", "autos", "sparse", "multi"}
+		n = 2000
+	case "C13":
+		o.Subs, o.Dispose, o.Handlers = 0.9, 1.0, 0.5
+		o.Motifs = []string{"sparse", "multi", "random"}
+		n = 1200
 	case "C07":
 		o.Motifs = []string{"autos", "autoveto", "autoveto", "health", "mutex", "random", "chain"}
 		o.Handlers = 0.8
